@@ -22,6 +22,7 @@ import (
 	"k8s.io/apimachinery/pkg/runtime"
 	"k8s.io/apimachinery/pkg/types"
 	"k8s.io/utils/ptr"
+	"sigs.k8s.io/controller-runtime/pkg/client"
 	"sigs.k8s.io/controller-runtime/pkg/reconcile"
 
 	xpv1 "github.com/crossplane/crossplane-runtime/apis/common/v1"
@@ -66,9 +67,33 @@ const (
 	preUncontrolled
 	preOwned
 	preForeign
+	// The target was the owner's (or uncontrolled) and has since been adopted
+	// by a foreign controller, but the controller's informer cache still
+	// serves the version from before the adoption (sites with stale == true).
+	preStaleOwned
+	preStaleUncontrolled
 )
 
-var preNames = []string{"absent", "uncontrolled", "owned", "foreign"}
+var preNames = []string{"absent", "uncontrolled", "owned", "foreign", "foreign-behind-stale-cache(owned)", "foreign-behind-stale-cache(uncontrolled)"}
+
+// staleClient is a controller's cached client whose informer has not yet
+// seen the last write of one object: Gets of that object return the version
+// before it. Lists and all writes go to the API server.
+type staleClient struct {
+	*simkube.Client
+	key   simkube.ObjKey
+	fresh bool // the cache has caught up
+}
+
+func (c *staleClient) Get(ctx context.Context, key client.ObjectKey, obj client.Object, opts ...client.GetOption) error {
+	rd := c.S.Lagging(c.Name, func(k simkube.ObjKey, _ int) int {
+		if k == c.key && !c.fresh {
+			return 1
+		}
+		return 0
+	})
+	return rd.Get(ctx, key, obj, opts...)
+}
 
 // site is one place where Crossplane writes an object on behalf of an owner.
 type site struct {
@@ -87,13 +112,21 @@ type site struct {
 	// adoptsUncontrolled documents whether the site may adopt an uncontrolled
 	// target (only used for the vacuity guard).
 	skipPre map[int]bool
+	// stale sites also run the two stale-cache pre-states.
+	stale bool
 }
 
 type world struct {
 	s        *simkube.Store
 	warnings []string
 	xrd      *v1.CompositeResourceDefinition
+	// catchUp lets a stale cache catch up with the API server.
+	catchUp func()
 }
+
+// errRequeue is reported by a round whose reconcile asked to be requeued
+// immediately without returning an error (how a write conflict is handled).
+var errRequeue = fmt.Errorf("requeue requested")
 
 func (w *world) rec() event.Recorder { return recorder{&w.warnings} }
 
@@ -138,11 +171,12 @@ func composedObj(gvkName, name, resName string) *unstructured.Unstructured {
 }
 
 func xrSite(name string, pipeline bool, mode string) site {
-	return site{name: name, silent: pipeline && mode != "name-collision", generatedName: mode != "name-collision", build: func(w *world, pre int) (simkube.ObjKey, func() []error, func() bool) {
+	return site{name: name, stale: true, silent: pipeline && mode != "name-collision", generatedName: mode != "name-collision", build: func(w *world, pre int) (simkube.ObjKey, func() []error, func() bool) {
 		s := w.s
 		xr := xrh.XR("xr1", "comp")
 		xr.SetUID("xr-uid")
 		xr.SetLabels(map[string]string{"crossplane.io/composite": "xr1"})
+		_ = unstructured.SetNestedField(xr.Object, "taken", "spec", "targetName")
 		owner := metav1.OwnerReference{APIVersion: xrh.XRGVK.GroupVersion().String(), Kind: xrh.XRGVK.Kind, Name: "xr1", UID: "xr-uid"}
 		// The target: a composed-kind object.
 		desiredNames := []string{"a", "b"}
@@ -151,7 +185,14 @@ func xrSite(name string, pipeline bool, mode string) site {
 			targetRes = "x" // referenced, annotated for a resource that is no longer desired / templated
 		}
 		t := composedObj(targetRes, "taken", targetRes)
-		exists := setPre(t, pre, owner)
+		basePre := pre
+		switch pre {
+		case preStaleOwned:
+			basePre = preOwned
+		case preStaleUncontrolled:
+			basePre = preUncontrolled
+		}
+		exists := setPre(t, basePre, owner)
 		if exists {
 			s.Seed(t)
 		}
@@ -173,12 +214,29 @@ func xrSite(name string, pipeline bool, mode string) site {
 		if pipeline {
 			xrh.SeedComposition(s, xrh.PipelineComposition("comp", "step"))
 		} else {
-			xrh.SeedComposition(s, xrh.ResourcesComposition("comp", xrh.Template{Name: "a", GVK: xrh.ResA}, xrh.Template{Name: "b", GVK: xrh.ResB}))
+			ta := xrh.Template{Name: "a", GVK: xrh.ResA}
+			if mode == "name-collision" {
+				// The template fixes the composed resource's name.
+				from, to := "spec.targetName", "metadata.name"
+				ta.Patches = []v1.Patch{{Type: v1.PatchTypeFromCompositeFieldPath, FromFieldPath: &from, ToFieldPath: &to}}
+			}
+			xrh.SeedComposition(s, xrh.ResourcesComposition("comp", ta, xrh.Template{Name: "b", GVK: xrh.ResB}))
 		}
 		c := s.Client("xr")
-		rec := xrh.NewXRReconciler(w.xrd, xrh.XROptions{Cached: c, Runner: xrh.FunctionRunner(fn), Recorder: w.rec()})
+		var cached client.Client = c
+		if pre >= preStaleOwned {
+			// Adopted by the foreign controller after the cache last saw it.
+			s.Mutate(simkube.KeyOf(t), func(u *unstructured.Unstructured) { u.SetOwnerReferences([]metav1.OwnerReference{foreign}) })
+			sc := &staleClient{Client: c, key: simkube.KeyOf(t)}
+			w.catchUp = func() { sc.fresh = true }
+			cached = sc
+		}
+		rec := xrh.NewXRReconciler(w.xrd, xrh.XROptions{Cached: cached, Uncached: c, Runner: xrh.FunctionRunner(fn), Recorder: w.rec()})
 		round := func() []error {
 			out := xrh.Reconcile(rec, types.NamespacedName{Name: "xr1"})
+			if out.Err == nil && out.Result.Requeue {
+				return []error{errRequeue}
+			}
 			return []error{out.Err}
 		}
 		unsynced := func() bool { return condFalse(s.Peek(xrh.XRKey("xr1")), "Synced") }
@@ -397,6 +455,7 @@ func sites() []site {
 		xrSite("function-composer/desired-name-collision", true, "name-collision"),
 		xrSite("function-composer/garbage-collection", true, "gc"),
 		xrSite("pt-composer/referenced-object", false, "ref"),
+		xrSite("pt-composer/template-name-collision", false, "name-collision"),
 		xrSite("pt-composer/garbage-collection-of-removed-template", false, "gc"),
 		xrSecretSite(),
 		claimSecretSite(false),
@@ -414,7 +473,11 @@ func sites() []site {
 }
 
 func body(r *explore.Run, rep *report.R, st site) {
-	pre := r.Free(4, "pre-state")
+	npre := 4
+	if st.stale {
+		npre = 6
+	}
+	pre := r.Free(npre, "pre-state")
 	rounds := 1 + r.Free(3, "rounds")
 	xrh.BeginExecution(1)
 	w := &world{s: xrh.NewStore(), xrd: xrh.XRD()}
@@ -423,36 +486,72 @@ func body(r *explore.Run, rep *report.R, st site) {
 	before := w.s.Peek(target)
 	logStart := len(w.s.Log)
 	var errs []string
-	for i := 0; i < rounds; i++ {
-		for _, e := range round() {
-			if e != nil {
-				errs = append(errs, e.Error())
+	requeued := false
+	stale := pre >= preStaleOwned
+	run := func(n int) {
+		for i := 0; i < n; i++ {
+			for _, e := range round() {
+				if e == errRequeue {
+					requeued = true
+				} else if e != nil {
+					errs = append(errs, e.Error())
+				}
 			}
 		}
 	}
+	run(rounds)
+	// check is the foreign-target oracle; sfx distinguishes the stale-cache
+	// histories from the plain placement.
+	check := func(sfx string, needSurfaced bool) {
+		after := w.s.Peek(target)
+		var writes []string
+		effective := false
+		for _, wr := range w.s.Log[logStart:] {
+			if wr.Call.Key != target {
+				continue
+			}
+			r.Logf("  call on target: %s effective=%v err=%q", wr.Call, wr.Effective, wr.Err)
+			if !wr.Call.DryRun && wr.Err == "" && wr.Call.Verb != "get" {
+				writes = append(writes, wr.Call.Verb+fmt.Sprintf("(effective=%v)", wr.Effective))
+			}
+			if !wr.Call.DryRun && wr.Effective {
+				effective = true
+			}
+		}
+		if after == nil || canonical(before) != canonical(after) {
+			r.Failf("foreign-modified/"+st.name+sfx, "the target %s, controlled by a foreign UID, was changed or deleted by the %s site (pre-state %s)", target, st.name, preNames[pre])
+		}
+		if effective {
+			r.Failf("foreign-written/"+st.name+sfx, "a write on %s took effect although a foreign UID controls it: %v", target, writes)
+		}
+		if needSurfaced && !st.silent && len(errs) == 0 && len(w.warnings) == 0 && !unsynced() {
+			r.Failf("conflict-not-surfaced/"+st.name+sfx, "the %s site found its target %s controlled by a foreign UID but surfaced neither an error, a warning event nor an unsynced condition", st.name, target)
+		}
+	}
+	r.Logf("%s pre=%s rounds=%d: errs=%v requeued=%v warnings=%v unsynced=%v", st.name, preNames[pre], rounds, errs, requeued, w.warnings, unsynced())
+	switch {
+	case pre == preForeign:
+		check("", true)
+	case stale:
+		// While the cache is behind, the target must stay untouched; a write
+		// refused with a conflict may be answered by an immediate requeue
+		// instead of an error. Once the cache has caught up the situation is
+		// the plain foreign placement and the conflict has to surface.
+		kind := map[int]string{preStaleOwned: "owned", preStaleUncontrolled: "uncontrolled"}[pre]
+		check("/stale-cache-saw-"+kind, false)
+		if len(errs) == 0 && len(w.warnings) == 0 && !unsynced() && !requeued && !st.silent {
+			r.Logf("  nothing surfaced and no requeue while the cache was stale")
+		}
+		w.catchUp()
+		run(2)
+		r.Logf("after the cache caught up: errs=%v warnings=%v unsynced=%v", errs, w.warnings, unsynced())
+		check("/after-stale-cache-saw-"+kind, true)
+	}
 	after := w.s.Peek(target)
-	r.Logf("%s pre=%s rounds=%d: errs=%v warnings=%v unsynced=%v", st.name, preNames[pre], rounds, errs, w.warnings, unsynced())
 	var writes []string
 	for _, wr := range w.s.Log[logStart:] {
 		if wr.Call.Key == target && !wr.Call.DryRun && wr.Err == "" && wr.Call.Verb != "get" {
 			writes = append(writes, wr.Call.Verb+fmt.Sprintf("(effective=%v)", wr.Effective))
-		}
-	}
-	if pre == preForeign {
-		if after == nil || canonical(before) != canonical(after) {
-			r.Failf("foreign-modified/"+st.name, "the target %s, controlled by a foreign UID, was changed or deleted by the %s site", target, st.name)
-		}
-		effective := false
-		for _, wr := range w.s.Log[logStart:] {
-			if wr.Call.Key == target && !wr.Call.DryRun && wr.Effective {
-				effective = true
-			}
-		}
-		if effective {
-			r.Failf("foreign-written/"+st.name, "a write on %s took effect although a foreign UID controls it: %v", target, writes)
-		}
-		if !st.silent && len(errs) == 0 && len(w.warnings) == 0 && !unsynced() {
-			r.Failf("conflict-not-surfaced/"+st.name, "the %s site found its target %s controlled by a foreign UID but surfaced neither an error, a warning event nor an unsynced condition", st.name, target)
 		}
 	}
 	// Vacuity guard: when the target is absent or already ours the site does
@@ -467,7 +566,7 @@ func body(r *explore.Run, rep *report.R, st site) {
 		r.Failf("harness/site-not-exercised/"+st.name, "the %s site did not garbage collect its own / an uncontrolled object (errs %v)", st.name, errs)
 	}
 	rep.Eval(st.name, report.Hash(st.name, pre, after != nil, len(errs) > 0, len(w.warnings) > 0), report.Hash(st.name, pre, rounds))
-	if rep.WantSample() && pre == preForeign {
+	if rep.WantSample() && (pre == preForeign || pre >= preStaleOwned) {
 		rep.Sample(map[string]any{"site": st.name, "pre_state": preNames[pre], "rounds": rounds, "errors": errs, "warnings": w.warnings, "writes_on_target": writes})
 	}
 }
@@ -482,7 +581,7 @@ func canonical(u *unstructured.Unstructured) string {
 func TestCheck(t *testing.T) {
 	rep := report.New("C02", "exploration")
 	rep.Meta(
-		"Table: 17 write sites (function composer: referenced object / desired-name collision / garbage collection; P&T composer: referenced object / removed template; XR connection secret; claim connection secret with both syncers; XRD->composite CRD and claim CRD; package->revision; active revision establishing an object; RBAC provider system and edit roles, binding; XRD roles) x target pre-state {absent, uncontrolled, controlled by the owner, controlled by a foreign UID} x 1..3 reconcile rounds, each run on the real reconciler over simkube. Foreign: target byte-identical, no effective non-dry-run write in the write log, conflict surfaced (returned error, warning event or unsynced condition). Absent / owned rows are controls showing the site does write. Non-trivial: every row (distinct by site, pre-state, rounds).",
+		"Table: 18 write sites (function composer: referenced object / desired-name collision / garbage collection; P&T composer: referenced object / name fixed by the template / removed template; XR connection secret; claim connection secret with both syncers; XRD->composite CRD and claim CRD; package->revision; active revision establishing an object; RBAC provider system and edit roles, binding; XRD roles) x target pre-state {absent, uncontrolled, controlled by the owner, controlled by a foreign UID; for the composer sites also: adopted by a foreign UID while the controller's cache still serves the version it owned / that was uncontrolled} x 1..3 reconcile rounds, each run on the real reconciler over simkube. Foreign: target byte-identical, no effective non-dry-run write in the write log, conflict surfaced (returned error, warning event or unsynced condition). Absent / owned rows are controls showing the site does write. Non-trivial: every row (distinct by site, pre-state, rounds).",
 		[]string{"simkube models the API server and enforces 'at most one controller reference' with the real ValidateOwnerReferences (the server-side-apply composer relies on that refusal)", "claim->XR binding (a claim reference, not a controller reference) is covered by C06; establishing into objects of other package revisions by C16"},
 		[]string{"simkube", "structured-merge-diff (real)"},
 	)
